@@ -222,6 +222,22 @@ let do_sh () =
   let cells = List.sort compare cells in
   Printf.printf "%d |%s\n" (b2i (shift_ok s xs)) (String.concat "" (List.map (fun (i, x) -> Printf.sprintf " %d:%d" i x) cells))
 
+(* FC circuit : model of DetailedPlacement::fromIspdCircuit (DetailedInit.v): the row structure or the exception *)
+let int_of_pol = function PANY->0|PSAME->1|POPPOSITE->2|PNW->3|PSE->4
+let do_fc () =
+  let c = read_pcircuit () in
+  match from_circuit c with
+  | DOk s ->
+    let cellS k = Printf.sprintf "%d:%s:%s:%d:%d" (int_of_nat k.p_id) (zi k.p_x) (zi k.p_w) (int_of_pol k.p_pol) (int_of_orient k.p_o) in
+    let rowS r = Printf.sprintf "%s %s %s %d:%s" (zi r.dr_min) (zi r.dr_max) (zi r.dr_y) (int_of_orient r.dr_o)
+        (String.concat "," (List.map cellS r.dr_cells)) in
+    print_endline ("OK " ^ String.concat ";" (List.map rowS s.d_rows))
+  | DErr e ->
+    print_endline ("ERR " ^ (match e with
+      | ENoRows -> "NoRows" | ERowHeights -> "RowHeights" | ENoRowFound _ -> "NoRowFound" | EWrongY _ -> "WrongY"
+      | ERowStartsAfter _ -> "RowStartsAfter" | ERowEndsBefore _ -> "RowEndsBefore" | EOverlap -> "Overlap"
+      | ECheckGeometry -> "CheckGeometry" | ECheckOrientation -> "CheckOrientation"))
+
 let () =
   try while true do
     let line = input_line stdin in
@@ -238,6 +254,7 @@ let () =
           | "RLC" -> do_rlc ()
           | "DM" -> do_dm ()
           | "DC" -> do_dc ()
+          | "FC" -> do_fc ()
           | "OT" -> do_ot ()
           | "LG" -> do_lg ()
           | "LC" -> do_lc ()
